@@ -72,6 +72,7 @@ THEOREMS = [
     "SleapVerif.C15.oks_ignores_missing_gt_coords_partial",
     "SleapVerif.C15.oks_missing_gt_coord_counterexample",
     "SleapVerif.C15.oksPairMixed_eq",
+    "SleapVerif.C15.match_every_prediction_takes_part",
 ]
 
 EPS = Fraction(2) ** -52  # np.spacing(1)
@@ -601,7 +602,15 @@ def main(chk: Check, build=True):
                 prs.append(prs[rng.randrange(len(prs))].copy())
             else:
                 prs.append(nan_pattern(rng, gen_pred(rng, gts, n_nodes))[0])
-        scores = [rng.choice([0.25, 0.5, 0.5, 0.75, 0.9, rng.random()]) for _ in range(n_pr)]
+        # scores incl. exactly 0.0 (valid, the sleap-io default), -0.0, denormal / tiny positives and 1.0; 12 % of the
+        # frames have ALL scores 0.0.  The score orders the predictions, it does not decide which ones take part.
+        u_sc = rng.random()
+        if u_sc < 0.12:
+            scores = [0.0] * n_pr
+        elif u_sc < 0.4:
+            scores = [rng.choice([0.0, 0.0, -0.0, 5e-324, 1e-12, 1.0, 0.5, rng.random()]) for _ in range(n_pr)]
+        else:
+            scores = [rng.choice([0.25, 0.5, 0.5, 0.75, 0.9, rng.random()]) for _ in range(n_pr)]
         thr = rng.choice([0, 0, 0, 0.1, 0.3, 0.5])
         scale = rng.choice([None, None, q16(rng, 1, 400)])
         stddev = rng.choice([0.025, 0.05, 0.107, 0.5])
@@ -636,7 +645,9 @@ def main(chk: Check, build=True):
         m_pairs = [(int(pt[1 + 3 * k]), int(pt[2 + 3 * k]), float(unrat(pt[3 + 3 * k]))) for k in range(int(pt[0]))]
         m_fn = [int(x) for x in fpart.split()[1:]]
         r = call(ev.match_instances, fg, fp, stddev=stddev, scale=scale, threshold=thr)
-        tags = [f"gt{len(gts)}", f"pr{len(prs)}", f"thr{thr}", f"invisible_style{vis_style}"]
+        tags = [f"gt{len(gts)}", f"pr{len(prs)}", f"thr{thr}", f"invisible_style{vis_style}"] + (
+            ["has_score_exactly_0"] if any(s_ == 0.0 for s_ in scores) else []) + (
+            ["all_scores_0"] if scores and all(s_ == 0.0 for s_ in scores) else [])
         if r[0] == "ok":
             pairs, fns = r[1]
             gidx = lambda mi: next(i for i, x in enumerate(gi) if x is mi.instance)
@@ -657,6 +668,24 @@ def main(chk: Check, build=True):
             pass
         else:
             chk.disagree("match_instances vs Oks.matchInstances@Rat", case, impl, model)
+        # identical poses: exact copies of the (pairwise distinguishable) gt instances, listed in another order and
+        # carrying this case's scores (0.0 included), must all be matched at OKS 1, whatever their score
+        visn = lambda g: ~np.isnan(g).any(-1)
+        real = [i for i, g in enumerate(gts) if visn(g).any()]
+        disting = all(not np.array_equal(gts[i][visn(gts[i])], gts[j][visn(gts[i])], equal_nan=False)
+                      for i in real for j in real if i != j)
+        if real and disting and thr < 1:
+            order = list(range(len(gts))); rng.shuffle(order)
+            sc_c = [(scores[k % len(scores)] if scores else 0.0) for k in range(len(gts))]
+            cfg, cfp, cgi, cpi = frames_of(gts, [gts[i] for i in order], sc_c, gts[0].shape[0], style=vis_style)
+            rc_ = call(ev.match_instances, cfg, cfp, stddev=stddev, scale=scale, threshold=thr)
+            chk.tag("copies_oracle")
+            okc = rc_[0] == "ok" and len(rc_[1][0]) == len(real) and all(float(v) == 1.0 for _, _, v in rc_[1][0]) \
+                and len(rc_[1][1]) == len(gts) - len(real)
+            if not okc:
+                chk.fail("predictions identical to the ground truth are not all matched at OKS 1",
+                         {**case, "pr": [gts[i].tolist() for i in order], "scores": sc_c},
+                         observed=str(rc_ if rc_[0] != "ok" else ([float(v) for _, _, v in rc_[1][0]], len(rc_[1][1])))[:300])
         # property oracle (independent of the model)
         if impl[0] == "ok":
             _, ip, ifn = impl
